@@ -155,6 +155,7 @@ func Transform(pkgs []*packages.Package, excluded func(filename string) bool) *R
 	in.deconvert(pkgs, excluded)
 	in.normalizeWaitGroupGo(pkgs, excluded)
 	in.normalizeErrorsIs(pkgs, excluded)
+	in.normalizeMethodExprCalls(pkgs, excluded)
 	in.normalizeMethodValues(pkgs, excluded)
 	in.normalizeRangeInt(pkgs, excluded)
 	in.normalizeLibraryLoops(pkgs, excluded)
@@ -1136,6 +1137,17 @@ func (in *inliner) expand(pk *packages.Package, file *ast.File, st *site, ownerD
 			if gv, _ := pk.TypesInfo.Uses[id].(*types.Var); gv != nil && gv.Parent() == pk.Types.Scope() && (types.Identical(gv.Type(), pt) || (types.IsInterface(pt) && !types.IsInterface(gv.Type()) && types.AssignableTo(gv.Type(), pt))) &&
 				pv.Name() != "" && pv.Name() != "_" && in.onlyRead(c, pv) && !in.mentions(c, id.Name) && in.neverAssigned(pk, gv) {
 				litParam[pv] = id.Name
+				continue
+			}
+		}
+		if argI != nil {
+			// a method expression of a type of this package handed to a
+			// parameter that the callee only ever calls: the calls name the
+			// method expression directly (normalizeMethodExprCalls then
+			// spells them as method calls)
+			pv := gsig.Params().At(i)
+			if name, ok := in.methodExprArg(pk, argI); ok && c.pkg == pk && pv.Name() != "" && pv.Name() != "_" && in.onlyCalled(c, pv) && !in.mentions(c, strings.TrimLeft(strings.SplitN(name, ".", 2)[0], "(*")) {
+				litParam[pv] = name
 				continue
 			}
 		}
